@@ -585,6 +585,15 @@ static void host_callback(void *arg, ares_status_t status, size_t timeouts,
     hquery->nomem = ARES_TRUE;
   }
 
+  /* The decision below is taken when the last query for the current name (A
+   * and AAAA for AF_UNSPEC) completes and only looks at that one.  A name that
+   * exists without the requested data must be remembered as such no matter
+   * which of the two answers arrives first. */
+  if (hquery->remaining &&
+      (status == ARES_ENODATA || addinfostatus == ARES_ENODATA)) {
+    hquery->nodata_cnt++;
+  }
+
   if (!hquery->remaining) {
     if (status == ARES_EDESTRUCTION || status == ARES_ECANCELLED) {
       /* must make sure we don't do next_lookup() on destroy or cancel,
